@@ -27,14 +27,19 @@ Qed.
 Lemma zseq_length n : length (zseq n) = n.
 Proof. unfold zseq. rewrite map_length, seq_length. reflexivity. Qed.
 
+Lemma nth_map_lt {A B} (f : A -> B) l n d d' : (n < length l)%nat -> nth n (map f l) d' = f (nth n l d).
+Proof.
+  revert n; induction l as [|a r IH]; intros n H; [cbn in H; lia|].
+  destruct n as [|n]; [reflexivity|]. cbn [map nth]. apply IH. cbn in H; lia.
+Qed.
+
 Lemma locals_nth (vecs : list (list Z)) nr r : (r < length vecs)%nat ->
   nth r (map (fun rv : Z * list Z => let '(r, v) := rv in let '(fp, lp) := first_last v r in ranges_compute v r fp lp nr)
              (combine (zseq (length vecs)) vecs)) (0, []) = local_of (nth r vecs []) (Z.of_nat r) nr.
 Proof.
   intros H.
-  rewrite (nth_indep _ (0, []) ((fun rv : Z * list Z => let '(r, v) := rv in let '(fp, lp) := first_last v r in ranges_compute v r fp lp nr) (0, [])))
-    by (rewrite map_length, combine_length, zseq_length; lia).
-  rewrite map_nth, combine_nth, zseq_nth by (rewrite ?zseq_length; lia).
+  rewrite (nth_map_lt _ _ r (0, [])) by (rewrite combine_length, zseq_length; lia).
+  rewrite combine_nth, zseq_nth by (rewrite ?zseq_length; lia).
   unfold local_of. destruct (first_last (nth r vecs []) (Z.of_nat r)). reflexivity.
 Qed.
 
@@ -112,10 +117,9 @@ Section Adaptive.
 
   Lemma tbl_row r : (r < P)%nat -> row_of tbl (Z.of_nat r) = firstn (Z.to_nat maxwin) (snd (nth r locals (0, []))).
   Proof.
-    intros H. unfold row_of. rewrite Nat2Z.id. unfold tbl, res, adaptive_all. cbn [fst snd].
-    fold res. fold locals. fold maxwin.
-    rewrite (nth_indep _ [] ((fun l : Z * list pair => firstn (Z.to_nat maxwin) (snd l)) (0, []))) by (rewrite map_length, locals_length; exact H).
-    rewrite map_nth. reflexivity.
+    intros H. unfold row_of. rewrite Nat2Z.id.
+    change tbl with (map (fun l : Z * list pair => firstn (Z.to_nat maxwin) (snd l)) locals).
+    rewrite (nth_map_lt _ _ r (0, [])) by (rewrite locals_length; exact H). reflexivity.
   Qed.
 
   (* the row of rank r: its filled ranges, then nothing or unused entries *)
